@@ -296,6 +296,22 @@ def itergen_case(seed):
     return []
 
 
+def _small_with_alarm(seed, limit=240):
+    import signal
+
+    def onalarm(signum, frame):
+        raise _Watchdog()
+    old = signal.signal(signal.SIGALRM, onalarm)
+    signal.alarm(limit)
+    try:
+        return small_source_case(seed)
+    except _Watchdog:
+        return [("priorized_fit_completes", "priorized_fit_islands did not finish within %d s" % limit)]
+    finally:
+        signal.alarm(0)
+        signal.signal(signal.SIGALRM, old)
+
+
 def crosscheck(p):
     thorough = p.get("tier") == "thorough"
     s0 = p.get("seed", 0) * 6007
@@ -342,8 +358,10 @@ def crosscheck(p):
                     failures.append({"label": lab, "input": {"seed": s0 + 500 + j, "stage": stage, "extra": kind}, "what": what,
                                      "replay_func": "replay_priorized", "replay_payload": {"cases": [[s0 + 500 + j, stage, kind]]}})
     for i in range(2):
+        if "priorized_fit_completes" in seen:
+            break
         evals += 1
-        for lab, what in small_source_case(s0 + i):
+        for lab, what in _small_with_alarm(s0 + i):
             if lab not in seen:
                 seen.add(lab)
                 failures.append({"label": lab, "input": {"small_seed": s0 + i}, "what": what, "replay_func": "replay_priorized",
@@ -398,10 +416,11 @@ def replay_priorized(p):
             break
     if not bad or 'shape_bounds' in want:
         for sd in small:
-            fl = small_source_case(sd)
+            fl = _small_with_alarm(sd)
             if fl:
                 bad.append({"small": sd, "what": fl})
                 break
     return {"fails": bool(bad), "observed": bad, "replay_func": "replay_priorized",
             "replay_payload": {"cases": [b["case"] for b in bad if "case" in b], "small": [b["small"] for b in bad if "small" in b],
-                               "resize": [b["resize"] for b in bad if "resize" in b]}}
+                               "resize": [b["resize"] for b in bad if "resize" in b],
+                               "itergen": [b["itergen"] for b in bad if "itergen" in b]}}
